@@ -112,7 +112,7 @@ Proof.
   unfold sliceN. destruct (N.of_nat (13 + sl) + v <=? N.of_nat (length payload)) eqn:E4;
     [|apply N.leb_gt in E4; lia]. cbn [obind].
   pose proof (no_panic_parse_formula_xlsb show_f64
-                {| be_sheets := ws_ext st; be_names := map fst (ws_names st) |}
+                {| be_sheets := ws_ext st; be_names := map fst (ws_names st); be_base := None |}
                 (firstn (N.to_nat v) (skipn (13 + sl) payload))) as Hp.
   destruct (xlsb_parse_formula show_f64 _ _); cbn [obind safe]; auto.
 Qed.
